@@ -43,7 +43,8 @@ PLAN = {
              ("control", 10, ["-calls", "2", "-cancel", "-maxcycle", "4"])],
             ["C08"], "a second or third call on an instance whose earlier call retracted a rule, completed, failed, hit the limit or was cancelled"),
     "C10": ([("patternx", 2, []), ("control", 700, ["-variants", ALLV]), ("salience", 150, []),
-             ("fault", 250, ["-calls", "3", "-flagp", "0.3"]), ("control", 10, ["-calls", "2", "-cancel", "-maxcycle", "4"])],
+             ("fault", 250, ["-calls", "3", "-flagp", "0.3"]), ("control", 250, ["-calls", "3", "-variants", "fresh,second,json"]),
+             ("control", 10, ["-calls", "2", "-cancel", "-maxcycle", "4"])],
             ["C10", "C10c"], "an action retracted a known rule or called Complete while other work was pending"),
     "C11": ([("fetch", 1200, ["-mode", "fetch", "-flagp", "0.3", "-variants", ALLV]), ("control", 200, ["-mode", "fetch"]),
              ("control", 250, ["-mode", "mixed", "-calls", "3"]), ("memo", 250, ["-mode", "mixed", "-calls", "3", "-variants", "fresh,second"])],
